@@ -8,7 +8,7 @@ CB_CODES = {'decide_bool': 10, 'decide_option': 11, 'decide_result': 12, 'decide
             'decide_skip': 15, 'decide_result_skip': 16, 'decide_unit': 17, 'decide_value': 18,
             'decide_tok': 19, 'decide_tok_result': 20, 'decide_tok_filter': 21, 'decide_tok_filterresult': 22,
             'decide_skipcb_unit': 23, 'decide_skipcb_result': 24, 'decide_bump': 25,
-            'decide_bool_b': 10, 'decide_filter_b': 13,
+            'decide_bool_b': 10, 'decide_filter_b': 13, 'decide_bump_b': 25,
             'named::boolish::skip': 10, 'named::filt::skip': 13, 'named::fr::skip': 14, 'named::valueish::skip': 18,
             'named::bumping::skip': 25, 'decide_bump_skip': 26, 'decide_bump_skip_unit': 26, 'named::unitish::skip': 23, 'named::resultish::skip': 24}
 
@@ -261,7 +261,7 @@ def run_real(exe, probes):
             # a probe takes microseconds; a process that does not finish is hanging in a lexer
             budget = 45 + len(todo) // 50
             try:
-                r = subprocess.run([exe, p], stdout=subprocess.PIPE, stderr=subprocess.PIPE, text=True, timeout=budget)
+                r = subprocess.run([exe, p], stdout=subprocess.PIPE, stderr=subprocess.PIPE, text=True, timeout=budget, preexec_fn=limit_memory(3))
                 stdout, code = r.stdout, r.returncode
             except subprocess.TimeoutExpired as e:
                 so = e.stdout or b''
